@@ -1043,10 +1043,7 @@ def init_fuel_tie(ctx, corr, runner, km):
             e = {'what': f'cc1 outcome {f["cls"]} at {f.get("site")} on an initializer', 'signature': f.get('sig'), 'input': show(c['data']),
                  'input_b64': b64(c['data']), 'opts': [], 'expected': 'assembly or one located diagnostic (the parser terminates: C13_init_no_hang)',
                  'got': f"{f['cls']} {f.get('detail', '')}"}
-            kid = match_known(f.get('sig'), km)
-            if kid:
-                e['known_id'] = kid
-                corr.known_hits.append(kid)
+            # no known finding applies here: the declarations are small (nesting <= 200 levels, <= 100000 elements)
             corr.violations.append(e)
             continue
         want = 'ok' if (cls == 'ok' and rest == '0') else 'diag'
